@@ -72,10 +72,25 @@ def proj(v):
     return v
 
 
+class _PMPI:
+    """the harness' own MPI calls use the PMPI_ entry points, so the PMPI shim sees only the
+    calls made by the library"""
+
+    def __init__(self, lib):
+        self._lib = lib
+
+    def __getattr__(self, name):
+        f = getattr(self._lib, "P" + name if name.startswith("MPI_") else name)
+        f.restype = c_int
+        setattr(self, name, f)
+        return f
+
+
 class Lib:
     def __init__(self, build):
         self.build = build
-        self.mpi = ctypes.CDLL("libmpi.so.40", mode=ctypes.RTLD_GLOBAL)
+        self.mpi_raw = ctypes.CDLL("libmpi.so.40", mode=ctypes.RTLD_GLOBAL)
+        self.mpi = _PMPI(self.mpi_raw)
         self.nc = ctypes.CDLL(os.path.join(build, "src/libs/.libs/libpnetcdf.so"), mode=ctypes.RTLD_GLOBAL)
         self.shim = None
         try:
@@ -93,15 +108,9 @@ class Lib:
         self.dt_null = self.handle("ompi_mpi_datatype_null")
         self.byte = self.handle("ompi_mpi_byte")
         self.has_hook = hasattr(self.nc, "ncmpi_inq_verif_state")
-        for fn in ("MPI_Type_vector", "MPI_Type_contiguous", "MPI_Type_commit", "MPI_Type_free",
-                   "MPI_Type_indexed", "MPI_Type_create_subarray", "MPI_Type_create_resized",
-                   "MPI_Type_create_hvector", "MPI_Info_create", "MPI_Info_set", "MPI_Info_free",
-                   "MPI_Barrier", "MPI_Info_get", "MPI_Info_get_nkeys", "MPI_Info_get_nthkey",
-                   "MPI_Type_create_hindexed", "MPI_Comm_split", "MPI_Comm_free", "MPI_Comm_dup"):
-            getattr(self.mpi, fn).restype = c_int
 
     def handle(self, sym):
-        return c_void_p(addressof(c_char.in_dll(self.mpi, sym)))
+        return c_void_p(addressof(c_char.in_dll(self.mpi_raw, sym)))
 
     def _protos(self):
         s = open(os.path.join(self.build, "src/include/pnetcdf.h")).read()
@@ -333,6 +342,7 @@ class Driver:
             return
         for lab, ncid in list(self.ctx.files.items()):
             if lab in self.ctx.open_labels():
+                self.L.nc.ncmpi_cancel(ncid, -1, None, None)   # NC_REQ_ALL: hygiene only
                 self.L.nc.ncmpi_abort(ncid)
         for k_, v_ in getattr(self, "env_set", {}).items():
             libc = ctypes.CDLL(None)
@@ -357,12 +367,25 @@ class Driver:
     def _comm(self, a):
         return self.L.self_ if a.get("comm") == "self" else self.L.world
 
+    def _comm2(self, a):
+        """communicator for create/open; "dup": a duplicate of WORLD owned by the harness (the library
+        must then keep and release its own duplicate)"""
+        if a.get("comm") == "dup":
+            c = c_void_p()
+            self.L.mpi.MPI_Comm_dup(self.L.world, byref(c))
+            return c, c
+        return self._comm(a), None
+
     def op_create(self, a):
         L = self.L
         info, fr = self.mkinfo(a.get("info"))
         ncid = c_int(-1)
         p = self.path(a["path"])
-        e = L.nc.ncmpi_create(self._comm(a), p.encode(), self._cmode(a.get("cmode")), info, byref(ncid))
+        comm, cfree = self._comm2(a)
+        e = L.nc.ncmpi_create(comm, p.encode(), self._cmode(a.get("cmode")), info, byref(ncid))
+        if cfree is not None:
+            L.mpi.MPI_Comm_free(byref(cfree))
+        self.ctx.paths.setdefault(str(a.get("f", 0)), p)
         if fr is not None:
             L.mpi.MPI_Info_free(byref(fr))
         if e == 0:
@@ -376,7 +399,10 @@ class Driver:
         info, fr = self.mkinfo(a.get("info"))
         ncid = c_int(-1)
         p = self.path(a["path"])
-        e = L.nc.ncmpi_open(self._comm(a), p.encode(), self._cmode(a.get("omode")), info, byref(ncid))
+        comm, cfree = self._comm2(a)
+        e = L.nc.ncmpi_open(comm, p.encode(), self._cmode(a.get("omode")), info, byref(ncid))
+        if cfree is not None:
+            L.mpi.MPI_Comm_free(byref(cfree))
         if fr is not None:
             L.mpi.MPI_Info_free(byref(fr))
         if e == 0:
@@ -596,7 +622,7 @@ class Driver:
                 L.mpi.MPI_Info_get_nthkey(info, i, key)
                 L.mpi.MPI_Info_get(info, key, 1023, val, byref(flag))
                 out[key.value.decode()] = val.value.decode()
-            L.mpi.MPI_Info_free(byref(info))
+            L.mpi_raw.MPI_Info_free(byref(info))
         return e, {"info": out}
 
     def op_inq_layout(self, a):
@@ -931,6 +957,38 @@ class Driver:
             names.append(nm.value.decode("utf-8", "replace"))
         return {"ndims": nd.value, "nvars": nv.value, "ngatts": na.value, "unlim": ud.value, "vnames": names}
 
+    def obs_files(self, a):
+        """every handle the harness holds open: [label, ncid, ndims, nvars, nreqs, mode]"""
+        nc = self.L.nc
+        out = []
+        for lab in sorted(getattr(self.ctx, "opened", set())):
+            ncid = self.ctx.files[lab]
+            nd, nv, na, ud, nr = c_int(-9), c_int(-9), c_int(-9), c_int(-9), c_int(-9)
+            e = nc.ncmpi_inq(ncid, byref(nd), byref(nv), byref(na), byref(ud))
+            e2 = nc.ncmpi_inq_nreqs(ncid, byref(nr))
+            st = self.obs_st({"ncid": ncid})
+            out.append({"f": lab, "ncid": ncid, "rc": self.L.errname(e or e2), "ndims": nd.value, "nvars": nv.value,
+                        "nreqs": nr.value, "dmode": st.get("dmode", "?"), "nmode": st.get("nmode", "?"), "nopen": st.get("nopen", -1)})
+        return out
+
+    def obs_diskall(self, a):
+        """every path the execution has used: does the file exist, how many dimensions does its header hold"""
+        if self.rank != 0:
+            return None
+        out = []
+        for lab in sorted(self.ctx.paths):
+            p = self.ctx.paths[lab]
+            ent = {"f": lab, "exists": int(os.path.exists(p)), "ndims": -1, "nvars": -1}
+            if ent["exists"]:
+                try:
+                    h = cdfdecode.decode_header(open(p, "rb").read())
+                    ent["ndims"] = len(h["dims"])
+                    ent["nvars"] = len(h["vars"])
+                except cdfdecode.FormatError:
+                    ent["ndims"] = -2
+            out.append(ent)
+        return out
+
     def obs_nreqs(self, a):
         n = c_int(-9)
         e = self.L.nc.ncmpi_inq_nreqs(self.ncid(a), byref(n))
@@ -1079,7 +1137,10 @@ class Driver:
         """configure the PMPI shim (fault injection)"""
         if self.L.shim is None:
             return "NO_SHIM", {}
-        self.L.shim.verif_shim_inject(a.get("kth", -1), a.get("cls", 0), a.get("rank", -1))
+        cls = a.get("cls", 0)
+        if isinstance(cls, str):
+            cls = self.L.shim.verif_shim_errclass(cls.encode())
+        self.L.shim.verif_shim_inject(a.get("kth", -1), cls, a.get("rank", -1))
         return 0, {}
 
 
